@@ -71,7 +71,7 @@ def execute(case, before_call=None, after_call=None):
             o.calls.append(rec)
             if after_call:
                 after_call(w, i, op, rec)
-            if adv and op[0] not in ("advance", "health"):
+            if adv and op[0] not in ("advance", "health", "pidchange"):
                 w.clock.advance(adv)
     finally:
         w.close()
